@@ -77,7 +77,10 @@ def unitary(c, n):
 
 def gen_term(rng, big=False):
     k = rng.choice([0, 1, 1, 2, 2, 3, 4]) if not big else rng.choice([1, 2, 3])
-    qs = rng.sample(range(7 if not big else 4), k)
+    pool = range(7 if not big else 4)
+    if not big and rng.random() < 0.3:       # wide registers: indices beyond 7, where set iteration order is not ascending
+        pool = list(range(0, 4)) + list(range(6, 20)) + [31, 32, 33, 64, 65]
+    qs = rng.sample(pool, k)
     ops = {str(q): rng.choice("XYZ") for q in qs}
     re = [rng.randint(-12, 12) or 1, rng.choice([1, 2, 4, 8])]
     r = rng.random()
@@ -123,9 +126,19 @@ def run_case(inp):
                 if out.operations: ok, msg = False, "constant term gives a non-empty circuit"
             else:
                 nq = max(int(k) for k in sp["ops"]) + 1
-                if nq <= 5:
+                pops = {int(k): v for k, v in sp["ops"].items()}
+                if nq > 5:          # wide register: relabel the support to 0..k-1 (the circuit must act on the support only)
+                    rel = {q: i for i, q in enumerate(sorted(pops))}
+                    if all(q in rel for o in out.operations for q in o.qubit_indices) and \
+                            all(len(set(o.qubit_indices)) == len(o.qubit_indices) for o in out.operations):
+                        out = Circuit([o.gate(*[rel[q] for q in o.qubit_indices]) for o in out.operations])
+                        pops = {rel[q]: v for q, v in pops.items()}
+                        nq = len(rel)
+                    else:
+                        ok, msg = False, f"circuit for {term} touches qubits outside the term's support or repeats a qubit in one gate: {[ (o.gate.name, o.qubit_indices) for o in out.operations]}"
+                if ok and nq <= 5:
                     U = unitary(out, nq)
-                    E = scipy.linalg.expm(-1j * float(t) * float(Fraction(*sp["re"])) * pauli_matrix({int(k): v for k, v in sp["ops"].items()}, nq))
+                    E = scipy.linalg.expm(-1j * float(t) * float(Fraction(*sp["re"])) * pauli_matrix(pops, nq))
                     if np.abs(U - E).max() > 1e-9:
                         ok, msg = False, f"circuit for {term} at t={float(t)} differs from exp(-i t c P) by {np.abs(U - E).max():.3g}"
         return dict(chk=chk, oracle_ok=ok, oracle_msg=msg, kind="term" + ("-rejected" if st != "ok" else ("-const" if not sp["ops"] else "")),
